@@ -340,6 +340,30 @@ def search(payload):
         got = call(p_, x)
         if got != ("ok", want):
             fails.append({"p": name, "returned_object": repr(p_), "x": repr(x), "implementation": repr(got), "reference": repr(("ok", want))})
+    # LARGE inputs: generators (no len) of batch-boundary lengths, ints beyond 2**53 against float bounds, non-ASCII text, long strings
+    for L in (0, 1, 255, 256, 257, 300, 512, 768, 1024):
+        for have in (L - 1, L, L + 1, L + 44, 2 * L):
+            if have < 0:
+                continue
+            n += 1
+            got = call(SP.has_length_p(L), (i for i in range(have)))
+            if got != ("ok", have == L):
+                fails.append({"p": f"has_length_p({L})", "x": f"(i for i in range({have}))", "implementation": repr(got), "reference": repr(("ok", have == L))})
+                break
+    for name, p_, x, want in (
+            ("ge_le_p(2**53 + 1, 1e17)", SP.ge_le_p(2 ** 53 + 1, 1e17), 2 ** 53, False), ("ge_le_p(2**53 + 1, 1e17)", SP.ge_le_p(2 ** 53 + 1, 1e17), 2 ** 53 + 1, True),
+            ("gt_le_p(0.5, 2**64 + 1)", SP.gt_le_p(0.5, 2 ** 64 + 1), 2 ** 64 + 1, True), ("gt_le_p(0.5, 2**64 + 1)", SP.gt_le_p(0.5, 2 ** 64 + 1), 2 ** 64 + 2, False),
+            ("ge_p(2**64)", SP.ge_p(2 ** 64), 2 ** 64 - 1, False), ("lt_p(10**30)", SP.lt_p(10 ** 30), 10 ** 30 - 1, True), ("eq_p(2**53 + 1)", SP.eq_p(2 ** 53 + 1), float(2 ** 53), False),
+            ("eq_p(0.3)", SP.eq_p(0.3), 0.1 + 0.2, False), ("ne_p(1e16)", SP.ne_p(1e16), 1e16 + 2.0, True), ("in_p(*range(32))", SETP.in_p(*range(32)), 32, False),
+            ("not_in_p(*range(1900, 2000))", SETP.not_in_p(*range(1900, 2000)), 2000, True), ("not_in_p(*range(1900, 2000))", SETP.not_in_p(*range(1900, 2000)), 1999, False),
+            ("in_p(*range(1024, 65536))", SETP.in_p(*range(1024, 65536)), 65536, False), ("in_p(*range(64))", SETP.in_p(*range(64)), 3.5, False),
+            ('regex_p(r"\\w+$")', SP.regex_p(r"\w+$"), "café", True), ('regex_p(r"\\d+")', SP.regex_p(r"\d+"), "٣٤", True), ('regex_p(r"\\W")', SP.regex_p(r"\W"), "é", False),
+            ('regex_p("^a")', SP.regex_p("^a"), "a" * 5000, True), ("is_subset_p(set(range(100)))", SETP.is_subset_p(set(range(100))), {99, 100}, False),
+            ("is_real_subset_p(set(range(50)))", SETP.is_real_subset_p(set(range(50))), set(range(50)), False)):
+        n += 1
+        got = call(p_, x)
+        if got != ("ok", want):
+            fails.append({"p": name, "x": repr(x)[:80], "implementation": repr(got), "reference": repr(("ok", want))})
     # the 'of' forms on elements that are == across types, and atoms that were inside a tree the optimizer has seen
     for name, p_, x, want in (
             ("is_list_of_p(is_int_p)", SP.is_list_of_p(SP.is_int_p), [1, 1.0], False), ("is_list_of_p(is_int_p)", SP.is_list_of_p(SP.is_int_p), [1.0, 1], False),
